@@ -3,7 +3,7 @@ from __future__ import annotations
 
 import ast
 
-from sa.loader import recv, norm, norm1, walk_shallow, own_nodes, call_name, is_super_call
+from sa.loader import AnalysisError, recv, norm, norm1, walk_shallow, own_nodes, call_name, is_super_call
 from sa.dataflow import node_defs
 from sa.typestate import check_language
 from sa.rulekit import (nodes_where, node_calls, node_roots, nodes_calling, return_nodes, own,
@@ -52,247 +52,170 @@ def run(ck):
                  "once with its own argument, before its extra effect", 'M0', 1)
 
     for fid in EMITTERS:
-        fi = prog.func(fid)
-        g = ck.cfg(fid, 'M0')
-        rd = ck.rdefs(fid, 'M0')
-        ws = nodes_writing_attr(g, '_output')
-        ck.need(R1, len(ws) == 1, f"{fid}: expected exactly one write of _output")
-        w = ws[0]
-        written = written_value(w, '_output')
-        sends = nodes_calling(g, 'send')
-        ck.need(R1, sends, f"{fid}: no event.send call found")
-        for s in sends:
-            c = node_calls(s, 'send')[0]
-            loops = [n for n in g.nodes if n.kind == 'for' and g.dominates(n, s)
-                     and norm(n.ast.target) == recv(c)]
-            problems = []
-            if not loops:
-                problems.append("not inside a loop over the event tuple")
-            if [norm(a) for a in c.args] != ['self']:
-                problems.append(f"positional arguments {[norm(a) for a in c.args]} (must be self)")
-            kws = {k.arg: k.value for k in c.keywords}
-            if set(kws) != {'trigger', 'previous', 'value'}:
-                problems.append(f"keywords {sorted(str(k) for k in kws)} (must be trigger, previous, value)")
-            else:
-                if not is_const(kws['trigger'], 'output'):
-                    problems.append(f"trigger={norm(kws['trigger'])}")
-                pv = kws['previous']
-                pdefs = rd.defs_at(s, pv.id) if isinstance(pv, ast.Name) else []
-                okp = bool(pdefs) and all(
-                    isinstance(d.ast, ast.Assign) and norm(d.ast.value) == 'self._output'
-                    and g.dominates(d, w) and d.id not in g.reachable_from(w) for d in pdefs)
-                if not okp:
-                    problems.append("`previous` is not the value of self._output read before the "
-                                    "write")
-                vv = kws['value']
-                if not (norm(vv) == norm(written) or expr_is(ck, fid, 'M0', s, vv, norm(written))):
-                    problems.append(f"value={norm(vv)} is not the value written ({norm(written)})")
-            ck.ob(R1, f"{fid} :: send in loop over {norm(loops[0].ast.iter) if loops else '?'}",
-                  not problems, "event.send(self, trigger='output', previous=<old>, value=<new>)"
-                  if not problems else '; '.join(problems), fi, s.ast)
+      with ck.section('R02.1' if fid.endswith('set_output') else 'R02.1e'):
+        if True:
+            fi = prog.func(fid)
+            if fid.endswith('set_output'):
+                # layout-independent decision first: abstract run on the complete case grid
+                from rules.shared import set_output_run
+                run_ = set_output_run(ck)
+                if run_['applicable']:
+                    bad_ = run_['bad']
+                    for trig in ('on_output', 'on_every_output'):
+                        msgs = [m for m in bad_['payload'] if f"{trig}[" in m.split(': ', 1)[-1][:30]]
+                        ck.ob(R1, f"{fid} :: abstract run :: payload of {trig} events", not msgs,
+                              "every event is sent as (self, trigger='output', previous=<old>, value=<new>) "
+                              f"on all {run_['cases']} cases" if not msgs else '; '.join(msgs[:3]), fi, fi.node)
+                    for aspect, key, good in (
+                            ('exactly the changes', 'changes', "a value is stored and queued iff it compares unequal "
+                             "to the previous one; on_output events only then; on_every_output events always"),
+                            ('order', 'order', "on_output events before on_every_output events, each group in the "
+                             "configured order; a failing delivery is not swallowed"),
+                            ('stored and queued before sending', 'queued first', "the write and the enqueue precede "
+                             "the first event"),
+                            ('UNDEF refused', 'undef', "UNDEF raises ValueError without any effect")):
+                        ck.ob(R2, f"{fid} :: abstract run :: {aspect}", not bad_[key],
+                              good if not bad_[key] else '; '.join(bad_[key][:3]), fi, fi.node)
+                    if any(bad_.values()):
+                        continue        # the run found the violation; the shape rules would only repeat it
+                    try:
+                        _emitter_shape(ck, prog, fid, fi, R1, R2)
+                    except AnalysisError as err_:
+                        ck.note(f"shape rules for {fid} not applicable to this layout ({err_.reason}); "
+                                "decided by the abstract run")
+                    continue
+                ck.note(f"abstract run of set_output not applicable: {run_['why']}")
+            _emitter_shape(ck, prog, fid, fi, R1, R2)
 
-        # ---- R02.2
-        pname = None
-        for d in nodes_where(g, lambda n: isinstance(n.ast, ast.Assign) and
-                             norm(n.ast.value) == 'self._output'):
-            pname = norm(d.ast.targets[0])
-        vname = norm(written)
-        eq_true = lambda n: g.has_guard(n, f'{pname} == {vname}', True) or \
-            g.has_guard(n, f'{vname} == {pname}', True)
-        eq_false = lambda n: g.has_guard(n, f'{pname} == {vname}', False) or \
-            g.has_guard(n, f'{vname} == {pname}', False)
-        ok = pname is not None and eq_false(w)
-        ck.ob(R2, f"{fid} :: write only for unequal values", bool(ok),
-              f"the write is guarded by `{pname} == {vname}` being false (equality, not identity)"
-              if ok else "the write of _output is not guarded by an equality comparison of the "
-              "previous and the new value", fi, w.ast)
-        # ... and skipped ONLY for equal values: a normal exit that avoids the write lies behind
-        # the true outcome of the equality test (an identity short-cut, `a is b or a == b`, drops
-        # the change nan -> nan of one and the same object, which compares unequal)
-        if pname is not None:
-            from sa.cfg import canon_fact, decompose
-            wants = {canon_fact(ast.parse(t_, mode='eval').body, True)
-                     for t_ in (f'{pname} == {vname}', f'{vname} == {pname}')} | \
-                    {canon_fact(ast.parse(t_, mode='eval').body, False)
-                     for t_ in (f'{pname} != {vname}', f'{vname} != {pname}')}
-            eqT = [n for n in g.nodes if n.kind == 'branch' and any(
-                canon_fact(e_, p_) in wants for e_, p_ in decompose(n.test.ast, n.polarity))]
-            witq = g.path_avoiding(g.entry, [g.exit], avoid=[w] + eqT)
-            ck.ob(R2, f"{fid} :: no change only for equal values", witq is None and bool(eqT),
-                  "every normal exit that skips the write lies behind `previous == value` being true"
-                  if witq is None and eqT else
-                  "the write (and with it the output event) can be skipped although the previous "
-                  "and the new value compare unequal (e.g. an identity short-cut)", fi, w.ast,
-                  witness=path_witness(g, witq))
-        lo = [n for n in g.nodes if n.kind == 'for' and norm(n.ast.iter) == 'self._output_events']
-        le = [n for n in g.nodes if n.kind == 'for' and norm(n.ast.iter) == 'self._every_output_events']
-        enq = nodes_calling(g, 'put_nowait')
+    with ck.section('R02.3'):
+        # ------------------------------------------------------------------ R02.3
+        for fid in EMITTERS + ('block:Event.send', 'block:SBlock.event'):
+            fi = prog.func(fid)
+            bad = []
+            if fi.is_async:
+                bad.append('async def')
+            for x in own_nodes(fi.node):
+                if isinstance(x, (ast.Await, ast.Yield, ast.YieldFrom)):
+                    bad.append(norm1(x))
+                if isinstance(x, ast.Call) and call_name(x) in SCHEDULERS:
+                    bad.append(norm1(x))
+            ck.ob(R3, fid, not bad, "plain synchronous function without scheduling calls" if not bad
+                  else f"delivery is deferred or asynchronous: {bad}", fi, fi.node)
 
-        def events(n):
-            ev = []
-            if n is w:
-                ev.append('W')
-            if n in enq:
-                ev.append('Q')
-            if n in lo:
-                ev.append('Lo')
-            if n in le:
-                ev.append('Le')
-            if n in sends:
-                inside_lo = any(g.dominates(l, n) and n.id in _loop_body(g, l) for l in lo)
-                inside_le = any(g.dominates(l, n) and n.id in _loop_body(g, l) for l in le)
-                ev.append('O' if inside_lo and not inside_le else ('E' if inside_le else 'X'))
-            return ev
-        spec = "( W Q Lo ( O Lo )* )? ( Le ( E Le )* )?" if fid.endswith('set_output') \
-            else "( W Lo ( O Lo )* )?"
-        try:
-            ok, wit, st = check_language(g, spec, events, [g.exit])
-        except Exception as err:      # a symbol outside the alphabet (X, Q in eval_block ...)
-            ok, wit, st = False, None, {'product_states': 0}
-            ck.ob(R2, f"{fid} :: path language", False,
-                  f"an output event is sent outside the two event loops, or an unexpected step "
-                  f"occurs ({err})", fi, fi.node)
-        else:
-            ck.product_states += st['product_states']
-            ck.ob(R2, f"{fid} :: path language {spec}", ok,
-                  "write, enqueue, on_output events, then on_every_output events -- in this order "
-                  "on every path" if ok else
-                  f"a path has the step word {' '.join(wit[1])}, not in {spec}", fi, fi.node,
-                  witness=path_witness(g, wit[0]) if wit else None)
-        if fid.endswith('set_output'):
-            early = [r for r in return_nodes(g)]
-            ok = all(eq_true(r) and g.has_guard(r, 'self._every_output_events', False) for r in early)
-            ck.ob(R2, f"{fid} :: early return", ok,
-                  "an early return happens only for an unchanged value with no on_every_output "
-                  "events configured" if ok else
-                  "set_output can return before sending events although the value changed or "
-                  "on_every_output events exist", fi, early[0].ast if early else fi.node)
-            # the on_every_output loop is reached on every other normal path
-            p = g.path_avoiding(g.entry, [g.exit], avoid=le + early)
-            ck.ob(R2, f"{fid} :: on_every_output always", p is None and bool(le),
-                  "every assignment that does not return early runs the on_every_output loop"
-                  if p is None and le else "a path skips the on_every_output events", fi,
-                  le[0].ast if le else fi.node, witness=path_witness(g, p))
+    with ck.section('R02.4'):
+        # ------------------------------------------------------------------ R02.4
+        _event_send_language(ck, R4)
 
-    # ------------------------------------------------------------------ R02.3
-    for fid in EMITTERS + ('block:Event.send', 'block:SBlock.event'):
-        fi = prog.func(fid)
-        bad = []
-        if fi.is_async:
-            bad.append('async def')
-        for x in own_nodes(fi.node):
-            if isinstance(x, (ast.Await, ast.Yield, ast.YieldFrom)):
-                bad.append(norm1(x))
-            if isinstance(x, ast.Call) and call_name(x) in SCHEDULERS:
-                bad.append(norm1(x))
-        ck.ob(R3, fid, not bad, "plain synchronous function without scheduling calls" if not bad
-              else f"delivery is deferred or asynchronous: {bad}", fi, fi.node)
-
-    # ------------------------------------------------------------------ R02.4
-    _event_send_language(ck, R4)
-
-    # ------------------------------------------------------------------ R02.5
-    tt = prog.func('block:_to_tuple')
-    g = ck.cfg(tt.fid, 'M0')
-    p0 = tt.node.args.args[0].arg
-    bad = [norm1(x) for x in own_nodes(tt.node) if isinstance(x, ast.Call) and
-           call_name(x) in ('set', 'frozenset', 'sorted', 'reversed', 'dict', 'fromkeys')]
-    bad += [norm1(x) for x in own_nodes(tt.node) if isinstance(x, ast.Subscript) and
-            isinstance(x.slice, ast.Slice)]
-    rd = ck.rdefs(tt.fid, 'M0')
-    rets = [r for r in return_nodes(g) if r.ast.value is not None]
-    okv = True
-    for r in rets:
-        v = r.ast.value
-        if isinstance(v, ast.Tuple) and not v.elts:
-            continue
-        if not isinstance(v, ast.Name):
-            okv = False
-            continue
-        def order_kept(val, depth=0):
-            # the parameter itself, tuple(p) / list(p) / (p,), an alias of those, or a conditional
-            # expression choosing between them
-            if val == 'param':
-                return True
-            if isinstance(val, str) or depth > 4:
-                return False
-            if norm(val) in (p0, f'tuple({p0})', f'({p0},)', f'list({p0})', '()'):
-                return True
-            if isinstance(val, ast.IfExp):
-                return order_kept(val.body, depth + 1) and order_kept(val.orelse, depth + 1)
-            return False
-        for val in rd.value_exprs(r, v.id):
-            if not order_kept(val):
+    with ck.section('R02.5'):
+        # ------------------------------------------------------------------ R02.5
+        tt = prog.func('block:_to_tuple')
+        g = ck.cfg(tt.fid, 'M0')
+        p0 = tt.node.args.args[0].arg
+        bad = [norm1(x) for x in own_nodes(tt.node) if isinstance(x, ast.Call) and
+               call_name(x) in ('set', 'frozenset', 'sorted', 'reversed', 'dict', 'fromkeys')]
+        bad += [norm1(x) for x in own_nodes(tt.node) if isinstance(x, ast.Subscript) and
+                isinstance(x.slice, ast.Slice)]
+        rd = ck.rdefs(tt.fid, 'M0')
+        rets = [r for r in return_nodes(g) if r.ast.value is not None]
+        okv = True
+        for r in rets:
+            v = r.ast.value
+            if isinstance(v, ast.Tuple) and not v.elts:
+                continue
+            if not isinstance(v, ast.Name):
                 okv = False
-    ck.ob(R5, tt.fid, not bad and okv and bool(rets),
-          "returns the items in the given order: args, tuple(args) or (args,)" if not bad and okv
-          else f"_to_tuple may reorder or de-duplicate the items ({bad})", tt, tt.node)
-    for fid in ('block:event_tuple', 'block:efilter_tuple'):
-        fi = prog.func(fid)
-        rets = [n for n in own_nodes(fi.node) if isinstance(n, ast.Return)]
-        ok = len(rets) == 1 and isinstance(rets[0].value, ast.Call) and \
-            call_name(rets[0].value) == '_to_tuple' and \
-            norm(rets[0].value.args[0]) == fi.node.args.args[0].arg
-        ck.ob(R5, fid, ok, "delegates to _to_tuple unchanged" if ok else
-              f"{fid} does not return _to_tuple(<argument>, validator)", fi, fi.node)
-    # loops iterate the stored tuples directly
-    n_loops = 0
-    for fid in EMITTERS:
-        g = ck.cfg(fid, 'M0')
-        for s in nodes_calling(g, 'send'):
-            c = node_calls(s, 'send')[0]
-            loops = [n for n in g.nodes if n.kind == 'for' and norm(n.ast.target) == recv(c)]
-            n_loops += len(loops)
-            ok = bool(loops) and all(norm(l.ast.iter) in ('self._output_events', 'self._every_output_events')
-                                     for l in loops)
-            if not ok:
-                ck.ob(R5, f"{fid} :: loop {norm1(loops[0].ast) if loops else '?'}", False,
-                      "the events are not sent by a plain loop over the stored tuple (order or "
-                      "multiplicity may change)", prog.func(fid), s.ast)
-    ck.ob(R5, "emitter loops", n_loops >= 3, f"{n_loops} send loops iterate the stored tuples "
-          "directly", None, 'edzed/block.py:1')
+                continue
+            def order_kept(val, depth=0):
+                # the parameter itself, tuple(p) / list(p) / (p,), an alias of those, or a conditional
+                # expression choosing between them
+                if val == 'param':
+                    return True
+                if isinstance(val, str) or depth > 4:
+                    return False
+                if norm(val) in (p0, f'tuple({p0})', f'({p0},)', f'list({p0})', '()'):
+                    return True
+                if isinstance(val, ast.IfExp):
+                    return order_kept(val.body, depth + 1) and order_kept(val.orelse, depth + 1)
+                return False
+            for val in rd.value_exprs(r, v.id):
+                if not order_kept(val):
+                    okv = False
+        ck.ob(R5, tt.fid, not bad and okv and bool(rets),
+              "returns the items in the given order: args, tuple(args) or (args,)" if not bad and okv
+              else f"_to_tuple may reorder or de-duplicate the items ({bad})", tt, tt.node)
+        for fid in ('block:event_tuple', 'block:efilter_tuple'):
+            fi = prog.func(fid)
+            rets = [n for n in own_nodes(fi.node) if isinstance(n, ast.Return)]
+            ok = len(rets) == 1 and isinstance(rets[0].value, ast.Call) and \
+                call_name(rets[0].value) == '_to_tuple' and \
+                norm(rets[0].value.args[0]) == fi.node.args.args[0].arg
+            ck.ob(R5, fid, ok, "delegates to _to_tuple unchanged" if ok else
+                  f"{fid} does not return _to_tuple(<argument>, validator)", fi, fi.node)
+        # loops iterate the stored tuples directly
+        n_loops = 0
+        from rules.shared import set_output_run
+        run_ = set_output_run(ck)
+        for fid in EMITTERS:
+            if fid.endswith('set_output') and run_['applicable']:
+                n_loops += 2        # order and multiplicity of set_output's sends: decided by the abstract run
+                continue
+            g = ck.cfg(fid, 'M0')
+            for s in nodes_calling(g, 'send'):
+                c = node_calls(s, 'send')[0]
+                loops = [n for n in g.nodes if n.kind == 'for' and norm(n.ast.target) == recv(c)]
+                n_loops += len(loops)
+                ok = bool(loops) and all(norm(l.ast.iter) in ('self._output_events', 'self._every_output_events')
+                                         for l in loops)
+                if not ok:
+                    ck.ob(R5, f"{fid} :: loop {norm1(loops[0].ast) if loops else '?'}", False,
+                          "the events are not sent by a plain loop over the stored tuple (order or "
+                          "multiplicity may change)", prog.func(fid), s.ast)
+        ck.ob(R5, "emitter loops", n_loops >= 3, f"{n_loops} send loops iterate the stored tuples "
+              "directly", None, 'edzed/block.py:1')
 
-    # ------------------------------------------------------------------ R02.6
-    own(ck, R6, '_output_events', {
-        'block:Block.__init__': 'event_tuple(on_output)',
-        'blocklib.sblocks2:InitAsync.init_regular': "documented suppression: 'no output events "
-        "are generated' for the fallback initialisation (docs/sblocks1.rst, InitAsync)"})
-    own(ck, R6, '_every_output_events', {'block:SBlock.__init__': 'event_tuple(on_every_output)'})
-    bi = prog.func('block:Block.__init__')
-    g = ck.cfg(bi.fid, 'M0')
-    ws = nodes_writing_attr(g, '_output_events')
-    ok = len(ws) == 1 and norm(written_value(ws[0], '_output_events')) == 'event_tuple(on_output)'
-    si = prog.func('block:SBlock.__init__')
-    g2 = ck.cfg(si.fid, 'M0')
-    ws2 = nodes_writing_attr(g2, '_every_output_events')
-    ok = ok and len(ws2) == 1 and \
-        norm(written_value(ws2[0], '_every_output_events')) == 'event_tuple(on_every_output)'
-    ck.ob(R6, "constructors store the configured events", ok,
-          "on_output / on_every_output are stored through event_tuple()" if ok else
-          "the configured events are not stored as given", bi, ws[0].ast if ws else bi.node)
+    with ck.section('R02.6'):
+        # ------------------------------------------------------------------ R02.6
+        own(ck, R6, '_output_events', {
+            'block:Block.__init__': 'event_tuple(on_output)',
+            'blocklib.sblocks2:InitAsync.init_regular': "documented suppression: 'no output events "
+            "are generated' for the fallback initialisation (docs/sblocks1.rst, InitAsync)"})
+        own(ck, R6, '_every_output_events', {'block:SBlock.__init__': 'event_tuple(on_every_output)'})
+        bi = prog.func('block:Block.__init__')
+        g = ck.cfg(bi.fid, 'M0')
+        ws = nodes_writing_attr(g, '_output_events')
+        ok = len(ws) == 1 and norm(written_value(ws[0], '_output_events')) == 'event_tuple(on_output)'
+        si = prog.func('block:SBlock.__init__')
+        g2 = ck.cfg(si.fid, 'M0')
+        ws2 = nodes_writing_attr(g2, '_every_output_events')
+        ok = ok and len(ws2) == 1 and \
+            norm(written_value(ws2[0], '_every_output_events')) == 'event_tuple(on_every_output)'
+        ck.ob(R6, "constructors store the configured events", ok,
+              "on_output / on_every_output are stored through event_tuple()" if ok else
+              "the configured events are not stored as given", bi, ws[0].ast if ws else bi.node)
 
-    # ------------------------------------------------------------------ R02.7
-    n = 0
-    for ci in prog.pkg_classes():
-        m = ci.methods.get('set_output')
-        if m is None or ci.qual == 'block:SBlock':
-            continue
-        n += 1
-        g = ck.cfg(m.fid, 'M0')
-        sup = nodes_where(g, lambda nd: any(is_super_call(c, 'set_output') for c in node_calls(nd)))
-        param = m.node.args.args[1].arg if len(m.node.args.args) > 1 else None
-        ok = len(sup) == 1 and must_pass(g, g.entry, sup, [g.exit]) is None
-        if ok:
-            c = [c for c in node_calls(sup[0]) if is_super_call(c, 'set_output')][0]
-            ok = [norm(a) for a in c.args] == [param] and not c.keywords
-            # nothing effectful before it
-            before = [x for x in g.nodes if x.kind == 'stmt' and x.id != sup[0].id and
-                      g.dominates(x, sup[0]) and not isinstance(x.ast, (ast.Assert, ast.Expr))]
-            ok = ok and not before
-        ck.ob(R7, m.fid, ok, "calls super().set_output(value) exactly once, first, with its own "
-              "argument" if ok else "an override of set_output does not forward the value to the "
-              "setter chain exactly once before its own effect", m, m.node)
-    ck.need(R7, n >= 1, "no set_output override found (AddonAsyncInit.set_output expected)")
+    with ck.section('R02.7'):
+        # ------------------------------------------------------------------ R02.7
+        n = 0
+        for ci in prog.pkg_classes():
+            m = ci.methods.get('set_output')
+            if m is None or ci.qual == 'block:SBlock':
+                continue
+            n += 1
+            g = ck.cfg(m.fid, 'M0')
+            sup = nodes_where(g, lambda nd: any(is_super_call(c, 'set_output') for c in node_calls(nd)))
+            param = m.node.args.args[1].arg if len(m.node.args.args) > 1 else None
+            ok = len(sup) == 1 and must_pass(g, g.entry, sup, [g.exit]) is None
+            if ok:
+                c = [c for c in node_calls(sup[0]) if is_super_call(c, 'set_output')][0]
+                ok = [norm(a) for a in c.args] == [param] and not c.keywords
+                # nothing effectful before it
+                before = [x for x in g.nodes if x.kind == 'stmt' and x.id != sup[0].id and
+                          g.dominates(x, sup[0]) and not isinstance(x.ast, (ast.Assert, ast.Expr))]
+                ok = ok and not before
+            ck.ob(R7, m.fid, ok, "calls super().set_output(value) exactly once, first, with its own "
+                  "argument" if ok else "an override of set_output does not forward the value to the "
+                  "setter chain exactly once before its own effect", m, m.node)
+        ck.need(R7, n >= 1, "no set_output override found (AddonAsyncInit.set_output expected)")
 
 
 def _loop_body(g, loop):
@@ -364,3 +287,127 @@ def _event_send_language(ck, rule):
           "dest.event(self._etype, **data) with data['source'] = <sender>.name" if okd else
           "the destination does not receive the event type and the filtered data with the "
           "sender's name", es, deliveries[0].ast if deliveries else es.node)
+
+def _emitter_shape(ck, prog, fid, fi, R1, R2):
+    """Shape rules R02.1 / R02.2 for one emitter (SBlock.set_output, CBlock.eval_block)."""
+    g = ck.cfg(fid, 'M0')
+    rd = ck.rdefs(fid, 'M0')
+    ws = nodes_writing_attr(g, '_output')
+    ck.need(R1, len(ws) == 1, f"{fid}: expected exactly one write of _output")
+    w = ws[0]
+    written = written_value(w, '_output')
+    sends = nodes_calling(g, 'send')
+    ck.need(R1, sends, f"{fid}: no event.send call found")
+    for s in sends:
+        c = node_calls(s, 'send')[0]
+        loops = [n for n in g.nodes if n.kind == 'for' and g.dominates(n, s)
+                 and norm(n.ast.target) == recv(c)]
+        problems = []
+        if not loops:
+            problems.append("not inside a loop over the event tuple")
+        if [norm(a) for a in c.args] != ['self']:
+            problems.append(f"positional arguments {[norm(a) for a in c.args]} (must be self)")
+        kws = {k.arg: k.value for k in c.keywords}
+        if set(kws) != {'trigger', 'previous', 'value'}:
+            problems.append(f"keywords {sorted(str(k) for k in kws)} (must be trigger, previous, value)")
+        else:
+            if not is_const(kws['trigger'], 'output'):
+                problems.append(f"trigger={norm(kws['trigger'])}")
+            pv = kws['previous']
+            pdefs = rd.defs_at(s, pv.id) if isinstance(pv, ast.Name) else []
+            okp = bool(pdefs) and all(
+                isinstance(d.ast, ast.Assign) and norm(d.ast.value) == 'self._output'
+                and g.dominates(d, w) and d.id not in g.reachable_from(w) for d in pdefs)
+            if not okp:
+                problems.append("`previous` is not the value of self._output read before the "
+                                "write")
+            vv = kws['value']
+            if not (norm(vv) == norm(written) or expr_is(ck, fid, 'M0', s, vv, norm(written))):
+                problems.append(f"value={norm(vv)} is not the value written ({norm(written)})")
+        ck.ob(R1, f"{fid} :: send in loop over {norm(loops[0].ast.iter) if loops else '?'}",
+              not problems, "event.send(self, trigger='output', previous=<old>, value=<new>)"
+              if not problems else '; '.join(problems), fi, s.ast)
+
+    # ---- R02.2
+    pname = None
+    for d in nodes_where(g, lambda n: isinstance(n.ast, ast.Assign) and
+                         norm(n.ast.value) == 'self._output'):
+        pname = norm(d.ast.targets[0])
+    vname = norm(written)
+    eq_true = lambda n: g.has_guard(n, f'{pname} == {vname}', True) or \
+        g.has_guard(n, f'{vname} == {pname}', True)
+    eq_false = lambda n: g.has_guard(n, f'{pname} == {vname}', False) or \
+        g.has_guard(n, f'{vname} == {pname}', False)
+    ok = pname is not None and eq_false(w)
+    ck.ob(R2, f"{fid} :: write only for unequal values", bool(ok),
+          f"the write is guarded by `{pname} == {vname}` being false (equality, not identity)"
+          if ok else "the write of _output is not guarded by an equality comparison of the "
+          "previous and the new value", fi, w.ast)
+    # ... and skipped ONLY for equal values: a normal exit that avoids the write lies behind
+    # the true outcome of the equality test (an identity short-cut, `a is b or a == b`, drops
+    # the change nan -> nan of one and the same object, which compares unequal)
+    if pname is not None:
+        from sa.cfg import canon_fact, decompose
+        wants = {canon_fact(ast.parse(t_, mode='eval').body, True)
+                 for t_ in (f'{pname} == {vname}', f'{vname} == {pname}')} | \
+                {canon_fact(ast.parse(t_, mode='eval').body, False)
+                 for t_ in (f'{pname} != {vname}', f'{vname} != {pname}')}
+        eqT = [n for n in g.nodes if n.kind == 'branch' and any(
+            canon_fact(e_, p_) in wants for e_, p_ in decompose(n.test.ast, n.polarity))]
+        witq = g.path_avoiding(g.entry, [g.exit], avoid=[w] + eqT)
+        ck.ob(R2, f"{fid} :: no change only for equal values", witq is None and bool(eqT),
+              "every normal exit that skips the write lies behind `previous == value` being true"
+              if witq is None and eqT else
+              "the write (and with it the output event) can be skipped although the previous "
+              "and the new value compare unequal (e.g. an identity short-cut)", fi, w.ast,
+              witness=path_witness(g, witq))
+    lo = [n for n in g.nodes if n.kind == 'for' and norm(n.ast.iter) == 'self._output_events']
+    le = [n for n in g.nodes if n.kind == 'for' and norm(n.ast.iter) == 'self._every_output_events']
+    enq = nodes_calling(g, 'put_nowait')
+
+    def events(n):
+        ev = []
+        if n is w:
+            ev.append('W')
+        if n in enq:
+            ev.append('Q')
+        if n in lo:
+            ev.append('Lo')
+        if n in le:
+            ev.append('Le')
+        if n in sends:
+            inside_lo = any(g.dominates(l, n) and n.id in _loop_body(g, l) for l in lo)
+            inside_le = any(g.dominates(l, n) and n.id in _loop_body(g, l) for l in le)
+            ev.append('O' if inside_lo and not inside_le else ('E' if inside_le else 'X'))
+        return ev
+    spec = "( W Q Lo ( O Lo )* )? ( Le ( E Le )* )?" if fid.endswith('set_output') \
+        else "( W Lo ( O Lo )* )?"
+    try:
+        ok, wit, st = check_language(g, spec, events, [g.exit])
+    except Exception as err:      # a symbol outside the alphabet (X, Q in eval_block ...)
+        ok, wit, st = False, None, {'product_states': 0}
+        ck.ob(R2, f"{fid} :: path language", False,
+              f"an output event is sent outside the two event loops, or an unexpected step "
+              f"occurs ({err})", fi, fi.node)
+    else:
+        ck.product_states += st['product_states']
+        ck.ob(R2, f"{fid} :: path language {spec}", ok,
+              "write, enqueue, on_output events, then on_every_output events -- in this order "
+              "on every path" if ok else
+              f"a path has the step word {' '.join(wit[1])}, not in {spec}", fi, fi.node,
+              witness=path_witness(g, wit[0]) if wit else None)
+    if fid.endswith('set_output'):
+        early = [r for r in return_nodes(g)]
+        ok = all(eq_true(r) and g.has_guard(r, 'self._every_output_events', False) for r in early)
+        ck.ob(R2, f"{fid} :: early return", ok,
+              "an early return happens only for an unchanged value with no on_every_output "
+              "events configured" if ok else
+              "set_output can return before sending events although the value changed or "
+              "on_every_output events exist", fi, early[0].ast if early else fi.node)
+        # the on_every_output loop is reached on every other normal path
+        p = g.path_avoiding(g.entry, [g.exit], avoid=le + early)
+        ck.ob(R2, f"{fid} :: on_every_output always", p is None and bool(le),
+              "every assignment that does not return early runs the on_every_output loop"
+              if p is None and le else "a path skips the on_every_output events", fi,
+              le[0].ast if le else fi.node, witness=path_witness(g, p))
+
